@@ -1380,6 +1380,126 @@ func sectionTransactions() {
 	}
 }
 
+// ---------------------------------------------------------------- transactions of an exact number of distinct cells
+
+// uniqueTree builds a tree of exactly k cells, no two of them equal (every cell carries its own
+// number next to a salt), at most 4 references per cell, depth about log4(k).
+func uniqueTree(k int, salt uint64, next *uint32) *cell.Cell {
+	*next++
+	bitsv := cat(u(salt, 64), u(uint64(*next), 32))
+	k--
+	var refs []*cell.Cell
+	for i := 4; i >= 1 && k > 0; i-- {
+		part := (k + i - 1) / i
+		refs = append(refs, uniqueTree(part, salt, next))
+		k -= part
+	}
+	return cell.New(bitsv, false, refs...)
+}
+
+func distinctCells(root *cell.Cell) int {
+	seen := map[cell.Hash]bool{}
+	var walk func(c *cell.Cell)
+	walk = func(c *cell.Cell) {
+		h := c.Hash()
+		if seen[h] {
+			return
+		}
+		seen[h] = true
+		for _, r := range c.Refs {
+			walk(r)
+		}
+	}
+	walk(root)
+	return len(seen)
+}
+
+// sectionTxSizes: the source BOC of a transaction whose tree holds exactly N distinct cells, N on both
+// sides of the points where the width of a cell index in the BOC header changes (2^8, in the thorough
+// tier 2^16). The transaction is an ordinary one whose in_msg body carries the padding.
+func sectionTxSizes() {
+	sizes := []int{255, 256, 257}
+	if R.Thorough() {
+		sizes = append(sizes, 65535, 65536, 65537)
+	}
+	reps := R.N(2, 4)
+	idx := 0
+	for _, n := range sizes {
+		for rep := 0; rep < reps; rep++ {
+			idx++
+			used := false // whether the drawn transaction has a message at all (the padding hangs below its first one)
+			build := func(pad int) *txSpec {
+				rng := R.Rng("tx-size", idx) // the same stream for both builds
+				var counter uint32
+				salt := R.Rng("tx-size-salt", idx).Uint64()
+				first := true
+				return genTx(rng, func() *cell.Cell {
+					if !first {
+						_, c := anyMessage(rng)
+						if c == nil {
+							return cell.New(nil, false)
+						}
+						return c
+					}
+					first = false
+					used = true
+					var refs []*cell.Cell
+					if pad > 0 {
+						refs = append(refs, uniqueTree(pad, salt, &counter))
+					}
+					sp := &msgSpec{initMode: 0, bodyRef: true, body: cell.New(u(salt, 64), false, refs...)}
+					genInfo(rng, "int", sp)
+					c, err := sp.cell()
+					if err != nil {
+						return cell.New(nil, false)
+					}
+					return c
+				})
+			}
+			base := distinctCells(build(0).c)
+			for tries := 0; !used && tries < 50; tries++ {
+				idx++
+				base = distinctCells(build(0).c)
+			}
+			if !used || base >= n {
+				R.HarnessError("transaction generator: %d cells before padding, want %d", base, n)
+				return
+			}
+			ts := build(n - base)
+			if got := distinctCells(ts.c); got != n {
+				R.HarnessError("transaction generator: padded to %d distinct cells, want %d", got, n)
+				return
+			}
+			for _, how := range []string{"plain", "hasher"} {
+				viaBoc := (rep+len(how))%2 == 0
+				t, err := deliver(ts.c, viaBoc, R.Rng("tx-size-deliver", idx))
+				if err != nil {
+					R.HarnessError("deliver: %v", err)
+					return
+				}
+				var tx tlb.Transaction
+				pn := mon.Guard(func() {
+					if how == "plain" {
+						err = tlb.Unmarshal(t, &tx)
+					} else {
+						err = tlb.NewDecoder().Unmarshal(t, &tx)
+					}
+				})
+				if pn != nil {
+					R.Violation("panic@"+pn.Site+"/decode-transaction/"+how, map[string]any{"panic": pn.Value, "distinct_cells": n})
+					continue
+				}
+				if err != nil {
+					R.Inconclusive("tongo rejects a reference-built transaction: " + mon.Trunc(err.Error(), 80))
+					continue
+				}
+				R.Seen("transaction_sizes(distinct cells)", fmt.Sprint(n))
+				compareTx(&tx, ts, how, fmt.Sprintf("root/%d-distinct-cells", n), map[string]any{"distinct_cells": n, "rep": rep, "delivered_via_boc": viaBoc})
+			}
+		}
+	}
+}
+
 // ---------------------------------------------------------------- several goroutines decoding at once
 
 // Distinct cells, distinct destinations, distinct decoders: nothing is shared by the callers, so
@@ -1898,6 +2018,76 @@ func sectionRareExtIn() {
 				}
 			}
 		}
+		// (d) an external-in message as it is found inside a Merkle proof: the body reference is a pruned
+		// branch standing for the body. The body is still a definite cell (the pruned branch names its hash),
+		// so the normalised hash still depends on destination and body only: unchanged by source and fee,
+		// different for different (pruned) bodies, different from that of the message with an empty body.
+		// Its value is not judged (records of level > 0, see compareMessage).
+		{
+			empty := cell.New(nil, false).Hash()
+			b1 := genBody(rng, 1023, 4)
+			for b1.Hash() == empty {
+				b1 = genBody(rng, 1023, 4)
+			}
+			b2 := genBody(rng, 1023, 4)
+			for b2.Hash() == b1.Hash() || b2.Hash() == empty {
+				b2 = genBody(rng, 1023, 4)
+			}
+			dst := addrInt(rng, false, true)
+			mkp := func(body *cell.Cell) (*msgSpec, *cell.Cell) {
+				sp := &msgSpec{kind: "ext-in", initMode: 0, bodyRef: true, body: body, dest: dst}
+				sp.info = cat([]bool{true, false}, addrExt(rng), dst, grams(randBig(rng, 8)))
+				c, err := sp.cell()
+				if err != nil {
+					return nil, nil
+				}
+				return sp, c
+			}
+			how := []string{"plain", "hasher"}[i%2]
+			wit := map[string]any{"case": i, "decoder": how, "note": "body reference is a pruned branch (message taken out of a Merkle proof)"}
+			spP1, cP1 := mkp(cell.NewPruned(b1, 1))
+			_, cP1b := mkp(cell.NewPruned(b1, 1)) // the same destination and body, another source and fee
+			_, cP2 := mkp(cell.NewPruned(b2, 1))
+			_, cE := mkp(cell.New(nil, false))
+			spF1, cF1 := mkp(b1)
+			if cP1 != nil && cP1b != nil && cP2 != nil && cE != nil && cF1 != nil {
+				if m, derr, pn := decodeMessage(cP1, how, true, i%4 >= 2, rng); pn != nil {
+					R.Violation("panic@"+pn.Site+"/decode-message/pruned-branch-body", witnessOf(wit, "panic", pn.Value))
+				} else if derr != nil {
+					R.Inconclusive("tongo rejects an external message whose body reference is a pruned branch")
+				} else {
+					compareMessage(m, cP1, spP1, how, "pruned-branch-body", wit)
+					hP1, ok1 := normHash(cP1, how, true, rng.Bool(), rng, wit)
+					hP1b, ok2 := normHash(cP1b, how, true, rng.Bool(), rng, wit)
+					hP2, ok3 := normHash(cP2, how, true, rng.Bool(), rng, wit)
+					hE, ok4 := normHash(cE, how, true, rng.Bool(), rng, wit)
+					hF1, ok5 := normHash(cF1, how, true, rng.Bool(), rng, wit)
+					if ok1 && ok2 && ok3 && ok4 && ok5 {
+						R.Eval("pruned-body/" + how + "/" + string(h8(cP1)))
+						R.Count("pruned_body_classes_compared", 1)
+						switch {
+						case hP1 != hP1b:
+							R.Violation("normalised-hash-changed-by@source-address+import-fee/pruned-branch-body", witnessOf(wit, "one", h32(hP1), "other", h32(hP1b)))
+						case hP1 == hE:
+							R.Violation("normalised-hash-blind-to@pruned-branch-body/equals-the-empty-body-message", witnessOf(wit, "both", h32(hP1)))
+						case hP1 == hP2:
+							R.Violation("normalised-hash-blind-to@pruned-branch-body/two-different-bodies", witnessOf(wit, "both", h32(hP1)))
+						}
+						// which value it is: not judged, recorded
+						if hP1 == hF1 {
+							R.Seen("observed", "pruned body: normalised hash = that of the same message with the body present (level-0 hash of the re-encoding)")
+							if [32]byte(hF1) != spF1.canonical().Hash() {
+								R.Violation("normalised-hash-mismatch@Message.Hash(true)/init-none/body-ref/ordinary-body/"+how, witnessOf(wit, "got", h32(hF1)))
+							}
+						} else if [32]byte(hP1) == spP1.canonical().Hash() {
+							R.Seen("observed", "pruned body: normalised hash = representation hash of the level-1 re-encoding")
+						} else {
+							R.Seen("observed", "pruned body: normalised hash is neither the level-0 nor the representation hash of the re-encoding (not judged)")
+						}
+					}
+				}
+			}
+		}
 		// (b) the body reference is a cell that was already read as a message elsewhere in the same tree
 		inner, innerCell := anyMessage(rng)
 		if innerCell == nil {
@@ -2302,7 +2492,7 @@ func main() {
 		tier = os.Args[1]
 	}
 	R = mon.Start("C16", tier)
-	R.Rule = "each case is one decoded message or transaction whose reported hash (Message.Hash(false), Message.Hash(true), Transaction.Hash, root of Transaction.SourceBoc) is compared with the reference hash of the cell it was decoded from (synthetic: the reference-built source cell; real blocks: a cell of the block with the right constructor tag, account and lt) or of the canonical external-in re-encoding built with ref/cell; equivalence-class pairs differ in exactly one part; external-in destinations are addr_std and addr_var (anycast only for the equality classes); body roots include library, Merkle-proof and Merkle-update cells; the normalised hash is asked again after the decoded body has been read in place and after a built message got another body / destination; one destination variable receives record after record while value copies of it are kept (hash, normalised hash and SourceBoc of every kept copy); transactions also at the root of their cell, re-decoded through one decoder, and with a pruned branch / library / Merkle proof below them (SourceBoc must carry those); one child process decodes distinct cells from 8 goroutines at once; every record is decoded once with tlb.Unmarshal and once with tlb.NewDecoder() (caching hasher) and the two must agree; non-trivial = a hash actually compared; distinct = distinct (decoder, place, shape, reference hash); stability re-reads and plain-vs-hasher agreement count as evaluations only"
+	R.Rule = "each case is one decoded message or transaction whose reported hash (Message.Hash(false), Message.Hash(true), Transaction.Hash, root of Transaction.SourceBoc) is compared with the reference hash of the cell it was decoded from (synthetic: the reference-built source cell; real blocks: a cell of the block with the right constructor tag, account and lt) or of the canonical external-in re-encoding built with ref/cell; equivalence-class pairs differ in exactly one part; external-in destinations are addr_std and addr_var (anycast only for the equality classes); body roots include library, Merkle-proof and Merkle-update cells; the normalised hash is asked again after the decoded body has been read in place and after a built message got another body / destination; one destination variable receives record after record while value copies of it are kept (hash, normalised hash and SourceBoc of every kept copy); transactions also at the root of their cell, re-decoded through one decoder, and with a pruned branch / library / Merkle proof below them (SourceBoc must carry those); transactions of exactly 255/256/257 (thorough also 65535/65536/65537) distinct cells; external-in messages whose body reference is a pruned branch (equality classes only: same for another source/fee, different for another pruned body and for the empty body); one child process decodes distinct cells from 8 goroutines at once; every record is decoded once with tlb.Unmarshal and once with tlb.NewDecoder() (caching hasher) and the two must agree; non-trivial = a hash actually compared; distinct = distinct (decoder, place, shape, reference hash); stability re-reads and plain-vs-hasher agreement count as evaluations only"
 	R.Assume("reference hasher harness/ref/cell is correct: pinned at start-up by the Merkle proof/update equations in the repository's real data")
 	R.Assume("canonical external-in form is ext_in_msg_info$10 src:addr_none dest import_fee:0, no init, body in a reference (comment in tlb/messages.go; TEP-467); destinations with anycast are not judged (tongo documents that it strips anycast)")
 	R.Assume("a record that tongo fails to decode, or decodes into a different structure than the generator described, is counted as inconclusive here (decoding is C03/C04/C08's subject)")
@@ -2316,6 +2506,7 @@ func main() {
 	sectionShapes()
 	sectionReuse()
 	sectionTransactions()
+	sectionTxSizes()
 	sectionCarriers()
 	sectionClasses()
 	sectionConstructed()
